@@ -3,7 +3,7 @@ package main
 // C08: each Send / SendRaw / SendIQ puts exactly the serialised stanza on the wire
 // once, whole, also concurrently; failed writes are reported.  Model: Model/Send.v.
 //
-// Six case modes:
+// Seven case modes:
 //   seq    op history on a real Client / Component over a recording transport whose
 //          Write is XMPPTransport.Write's (readWriter = socket, or the real streamLogger
 //          around socket + log), write faults (error after n bytes / short count) on
@@ -13,6 +13,9 @@ package main
 //   tcp    concurrent senders over the real XMPPTransport to a loopback TCP sink
 //   wsfault op history over the real WebsocketTransport whose TCP connection is made to
 //          fail every write from some op on (connection reset not yet noticed)
+//   connect Client.Connect against a small negotiating server that resets the connection after
+//          the bind result or not, with and without a PostConnectHook: Connect's own initial
+//          presence is a send like any other
 //   ws     concurrent senders over the real WebsocketTransport to a loopback
 //          websocket sink (nhooyr.io/websocket, the module /repo uses)
 
@@ -29,6 +32,7 @@ import (
 	"net"
 	"net/http"
 	"os"
+	"regexp"
 	"sort"
 	"strings"
 	"sync"
@@ -75,6 +79,8 @@ type c08In struct {
 	Seed      int64 `json:"seed,omitempty"`
 	FailFrom  int   `json:"failfrom,omitempty"` // wsfault: every socket write fails from this op on
 	Break     int   `json:"break,omitempty"`    // wsfault: 0 the TCP connection starts failing every write (reset not yet noticed)  2 the transport is closed (Disconnect) before that op
+	Hook      bool  `json:"hook,omitempty"`     // connect: a PostConnectHook (returning nil) is set
+	Reset     bool  `json:"reset,omitempty"`    // connect: the server resets the connection right after the bind result
 	// filled by Run: the sender index of every element on the wire, in wire order
 	// (the schedule the run exhibited; handed to the model's LTS runner)
 	Sched []int `json:"sched,omitempty"`
@@ -175,26 +181,30 @@ func (o c08Op) data() string {
 	return string(b)
 }
 
-// nonza: an acknowledgement request or answer of stream management, which is not a stanza and is
-// never held: the SMRequest/SMAnswer packets (by value or by pointer) and a raw string whose first
-// element is {urn:xmpp:sm:3}r or {urn:xmpp:sm:3}a.
+// nonza: anything that is not a stanza.  Stream management holds and numbers exactly the stanzas
+// (message, presence, iq: what the server counts in the h of its acknowledgements): the Message /
+// Presence / IQ packets, and a raw string whose first element is message, presence or iq in
+// jabber:client (or without a namespace of its own).  Acknowledgement requests and answers, other
+// nonzas (client state indication, a stream end tag), white space keepalives, the empty string and
+// a nil packet are written and neither held nor numbered.
 func (o c08Op) nonza() bool {
 	switch o.K {
-	case "smr", "sma", "smrp", "smap":
-		return true
+	case "msg", "pres", "iq", "sendiq":
+		return false
 	case "raw":
 		d := xml.NewDecoder(strings.NewReader(o.rawString()))
 		for {
 			tok, err := d.Token()
 			if err != nil {
-				return false
+				return true
 			}
 			if se, ok := tok.(xml.StartElement); ok {
-				return se.Name.Space == nsSM && (se.Name.Local == "r" || se.Name.Local == "a")
+				stanzaName := se.Name.Local == "message" || se.Name.Local == "presence" || se.Name.Local == "iq"
+				return !(stanzaName && (se.Name.Space == "" || se.Name.Space == "jabber:client"))
 			}
 		}
 	}
-	return false
+	return true // smr sma smrp smap nil
 }
 func (o c08Op) iqGetSet() bool {
 	return o.Typ == "get" || o.Typ == "set"
@@ -522,6 +532,11 @@ func c08RunSeq(in *c08In) Sx {
 		for _, w := range sock.since(s0) {
 			ws = append(ws, o.tok(w))
 		}
+		if len(ws) == 0 && res.Z == 0 && o.data() == "" {
+			// nothing to put on the wire (nil packet, empty string): no Write and a Write of
+			// zero bytes are the same thing there
+			ws = []string{o.tok("")}
+		}
 		steps = append(steps, L(res, c08Strs(ws)))
 	}
 	// queue payloads, each read as the op that (by the push rule) put it there
@@ -651,7 +666,11 @@ func c08OracleSeq(in *c08In, obs Sx) (string, string) {
 	q := obs.L[1].L
 	push := in.pushing()
 	if len(q) != len(push) {
-		return fmt.Sprintf("unacknowledged queue holds %d entries, want %d (the stanzas and raw strings whose write succeeded, no acknowledgement requests/answers)", len(q), len(push)), "queue"
+		sig := "queue"
+		if len(q) > len(push) {
+			sig = "queue-holds-non-stanza" // or a stanza whose write failed
+		}
+		return fmt.Sprintf("unacknowledged queue holds %d entries, want %d: exactly the stanzas (message, presence, iq; by packet type, or by the first element of a raw string) whose write succeeded - the server counts nothing else, so anything else held puts the client's numbering ahead and an acknowledged stanza is written again", len(q), len(push)), sig
 	}
 	for i := range q {
 		if string(bytesOf(q[i])) != push[i].want() {
@@ -1067,6 +1086,143 @@ func c08OracleWSFault(in *c08In, obs Sx) (string, string) {
 				return fmt.Sprintf("unacknowledged queue entry %d is not the stanza sent", j), "ws-queue"
 			}
 		}
+	}
+	return "", ""
+}
+
+// ---- mode connect: the one send Connect makes itself (the initial presence)
+
+var c08ReID = regexp.MustCompile(`id=["']([^"']*)["']`)
+
+const c08SrvHeader = "<?xml version='1.0'?><stream:stream xmlns='jabber:client' xmlns:stream='http://etherx.jabber.org/streams' id='%s' from='localhost' version='1.0'>"
+
+// c08Negotiate plays the server side of one plain session negotiation (PLAIN, bind), then either
+// resets the connection at once or keeps reading; got receives everything read after the bind.
+func c08Negotiate(c net.Conn, reset bool, got chan<- string) {
+	defer close(got)
+	var buf bytes.Buffer
+	readUntil := func(marker string) (string, bool) {
+		tmp := make([]byte, 65536)
+		for {
+			if i := strings.Index(buf.String(), marker); i >= 0 {
+				return string(buf.Next(i + len(marker))), true
+			}
+			c.SetReadDeadline(time.Now().Add(10 * time.Second))
+			n, err := c.Read(tmp)
+			buf.Write(tmp[:n])
+			if err != nil {
+				return "", false
+			}
+		}
+	}
+	steps := []struct{ wait, reply string }{
+		{"version='1.0'>", fmt.Sprintf(c08SrvHeader, "id1") + "<stream:features><mechanisms xmlns='urn:ietf:params:xml:ns:xmpp-sasl'><mechanism>PLAIN</mechanism></mechanisms></stream:features>"},
+		{"</auth>", "<success xmlns='urn:ietf:params:xml:ns:xmpp-sasl'/>"},
+		{"version='1.0'>", fmt.Sprintf(c08SrvHeader, "id2") + "<stream:features><bind xmlns='urn:ietf:params:xml:ns:xmpp-bind'/></stream:features>"},
+		{"</iq>", ""},
+	}
+	for _, st := range steps {
+		req, ok := readUntil(st.wait)
+		if !ok {
+			c.Close()
+			return
+		}
+		reply := st.reply
+		if reply == "" {
+			id := ""
+			if m := c08ReID.FindStringSubmatch(req); m != nil {
+				id = m[1]
+			}
+			reply = "<iq type='result' id='" + id + "'><bind xmlns='urn:ietf:params:xml:ns:xmpp-bind'><jid>u@localhost/r</jid></bind></iq>"
+		}
+		c.Write([]byte(reply))
+	}
+	if reset {
+		if tc, ok := c.(*net.TCPConn); ok {
+			tc.SetLinger(0) // the server goes away: connection reset
+		}
+		c.Close()
+		return
+	}
+	// healthy: whatever comes within a short while
+	deadline := time.Now().Add(3 * time.Second)
+	tmp := make([]byte, 65536)
+	for time.Now().Before(deadline) {
+		if strings.Contains(buf.String(), ">") {
+			break
+		}
+		c.SetReadDeadline(time.Now().Add(100 * time.Millisecond))
+		n, _ := c.Read(tmp)
+		buf.Write(tmp[:n])
+	}
+	got <- buf.String()
+	c.Close()
+}
+
+func c08RunConnect(in *c08In) Sx {
+	ln, err := net.Listen("tcp", "127.0.0.1:0")
+	if err != nil {
+		return c08Anomaly("harness", err.Error())
+	}
+	defer ln.Close()
+	got := make(chan string, 1)
+	go func() {
+		c, err := ln.Accept()
+		if err != nil {
+			close(got)
+			return
+		}
+		c08Negotiate(c, in.Reset, got)
+	}()
+	cfg := &xmpp.Config{TransportConfiguration: xmpp.TransportConfiguration{Address: ln.Addr().String(), Domain: "localhost", ConnectTimeout: 1},
+		Jid: "u@localhost", Credential: xmpp.Password("p"), Insecure: true, KeepaliveInterval: time.Hour}
+	c, err := xmpp.NewClient(cfg, xmpp.NewRouter(), func(error) {})
+	if err != nil {
+		return c08Anomaly("harness", "newclient: "+err.Error())
+	}
+	// the application is told about the new session before Connect writes the presence: while it
+	// thinks about it, the reset arrives
+	c.SetHandler(func(e xmpp.Event) error {
+		if in.Reset && xmpp.VerifEventState(e) == xmpp.StateSessionEstablished {
+			time.Sleep(250 * time.Millisecond)
+		}
+		return nil
+	})
+	if in.Hook {
+		c.PostConnectHook = func() error { return nil }
+	}
+	cerr := c.Connect()
+	arrived := false
+	select {
+	case s, ok := <-got:
+		arrived = ok && strings.Contains(s, "<presence")
+	case <-time.After(5 * time.Second):
+	}
+	if cerr == nil {
+		go c.Disconnect()
+	}
+	return L(c08Result(cerr, true), B(arrived))
+}
+
+func c08InputConnect(in *c08In) Sx { return L(Z(4), B(in.Reset)) }
+
+// Model-free oracle: Connect makes one send of its own; when that write failed (the presence is
+// not with the server) Connect must say so.
+func c08OracleConnect(in *c08In, obs Sx) (string, string) {
+	if len(obs.L) == 3 && obs.L[0].K == "s" {
+		return "connect: " + string(bytesOf(obs.L[2])), "connect-" + string(bytesOf(obs.L[1]))
+	}
+	if len(obs.L) != 2 {
+		return "unexpected observation shape", "shape"
+	}
+	res, arrived := obs.L[0].Z, obs.L[1].Z == 1
+	switch {
+	case res == 0 && !arrived:
+		return fmt.Sprintf("Connect (PostConnectHook set: %v) returned nil although its initial presence never reached the server (connection reset after the bind result): the failed write is not reported", in.Hook), "connect-unreported-failure"
+	case res != 0 && arrived && !in.Reset:
+		return "Connect failed on a healthy connection", "connect-spurious-error"
+	case in.Reset && arrived:
+		return "the presence arrived over a connection that was reset before it was written", "harness"
 	}
 	return "", ""
 }
@@ -1518,6 +1674,8 @@ func (c08) Run(inp interface{}) Sx {
 		return c08RunStress(in)
 	case "wsfault":
 		return c08RunWSFault(in)
+	case "connect":
+		return c08RunConnect(in)
 	}
 	return L(SBytes("unknown-mode"))
 }
@@ -1531,6 +1689,8 @@ func (c08) Input(inp interface{}) Sx {
 		return c08InputLogger(in)
 	case "wsfault":
 		return c08InputWSFault(in)
+	case "connect":
+		return c08InputConnect(in)
 	}
 	return c08InputStress(in)
 }
@@ -1547,6 +1707,8 @@ func (c08) Oracle(inp interface{}, obs Sx) (string, string) {
 		return c08OracleLogger(in, obs)
 	case "wsfault":
 		return c08OracleWSFault(in, obs)
+	case "connect":
+		return c08OracleConnect(in, obs)
 	}
 	return c08OracleStress(in, obs)
 }
@@ -1569,6 +1731,10 @@ func c08SizeClass(n int) string {
 func (c08) Key(inp interface{}) (string, bool) {
 	in := inp.(*c08In)
 	hist("mode:" + in.Mode)
+	if in.Mode == "connect" {
+		hist(fmt.Sprintf("connect:hook=%v reset=%v", in.Hook, in.Reset))
+		return fmt.Sprintf("connect h%v r%v s%d", in.Hook, in.Reset, in.Seed), true
+	}
 	switch in.Mode {
 	case "tcp", "ws", "mem":
 		k := fmt.Sprintf("%s c%v sm%v log%v %dx%d max%d seed%d", in.Mode, in.Component, in.SM, in.Log, in.Senders, in.PerSender, in.MaxLen, in.Seed)
@@ -1673,11 +1839,16 @@ func c08GenOp(r *rand.Rand, i int, big bool) c08Op {
 			o.ID = []string{"dup", "dup", "dup2", ""}[r.Intn(4)] // ids that recur within a history
 		}
 	case c < 15:
-		o = c08Op{K: []string{"smr", "smrp"}[r.Intn(2)]}
+		o = c08Op{K: []string{"smr", "smrp", "nil"}[r.Intn(3)]}
 	case c < 16:
 		o = c08Op{K: []string{"sma", "smap"}[r.Intn(2)], H: uint(r.Intn(1000))}
 	default:
-		o = c08Op{K: "raw", Seed: o.Seed, Len: o.Len, Raw: []string{"", "<r xmlns='urn:xmpp:sm:3'/>", "<presence/>", "<message><body>", " ", "</stream:stream>", "100%", "%s %d %%", "<a xmlns=\"urn:xmpp:sm:3\" h=\"2\"/>", " <r xmlns='urn:xmpp:sm:3'/><message/>", "<r xmlns='urn:x'/>"}[r.Intn(11)]}
+		o = c08Op{K: "raw", Seed: o.Seed, Len: o.Len, Raw: []string{"", "<r xmlns='urn:xmpp:sm:3'/>", "<presence/>", "<message><body>", " ", "</stream:stream>", "100%", "%s %d %%", "<a xmlns=\"urn:xmpp:sm:3\" h=\"2\"/>", " <r xmlns='urn:xmpp:sm:3'/><message/>", "<r xmlns='urn:x'/>",
+			"<inactive xmlns='urn:xmpp:csi:0'/>", "<active xmlns='urn:xmpp:csi:0'/>", "<message xmlns='jabber:client' id='x'/>", "<message xmlns='urn:other'/>", "<iq type='get' id='y'/>", "\n", "<presence/><presence/>"}[r.Intn(18)]}
+		if r.Intn(6) == 0 { // exactly a white space keepalive / the empty string
+			o.Len = 0
+			o.Raw = []string{" ", "", "\n"}[r.Intn(3)]
+		}
 	}
 	return o
 }
@@ -1743,6 +1914,8 @@ func (c08) Gen(r *rand.Rand, tier string) []interface{} {
 		&c08In{Mode: "seq", Conn: 3, Ops: []c08Op{{K: "msg", ID: "1"}, {K: "raw", Raw: "x"}, {K: "sendiq", ID: "3", Typ: "get"}}},
 		&c08In{Mode: "seq", Conn: 5, SM: true, Ops: []c08Op{{K: "msg", ID: "1"}, {K: "raw", Raw: "x"}, {K: "sendiq", ID: "3", Typ: "get"}, {K: "smr"}}},
 		&c08In{Mode: "seq", Conn: 5, Ops: []c08Op{{K: "msg", ID: "1"}, {K: "sendiq", ID: "3", Typ: "set"}}},
+		// what stream management must not hold: keepalive, client state indication, empty string, nil packet
+		&c08In{Mode: "seq", SM: true, Ops: []c08Op{{K: "pres", ID: "p"}, {K: "raw", Raw: " "}, {K: "raw", Raw: "<inactive xmlns='urn:xmpp:csi:0'/>"}, {K: "raw", Raw: ""}, {K: "nil"}, {K: "msg", ID: "m1"}, {K: "raw", Raw: "<iq type='get' id='q'/>"}}},
 		// the same id twice: the second request is refused while the first awaits its response
 		&c08In{Mode: "seq", SM: true, Ops: []c08Op{{K: "sendiq", ID: "a", Typ: "get"}, {K: "sendiq", ID: "a", Typ: "set"}, {K: "sendiq", ID: "b", Typ: "get"}, {K: "iq", ID: "a", Typ: "get"}}},
 		&c08In{Mode: "seq", Component: true, Ops: []c08Op{{K: "sendiq", ID: "a", Typ: "get"}, {K: "sendiq", ID: "a", Typ: "get"}, {K: "sendiq", ID: "a", Typ: "get"}}, SockF: []c08Fault{{K: 0, Kind: 1}}},
@@ -1855,6 +2028,17 @@ func (c08) Gen(r *rand.Rand, tier string) []interface{} {
 			in.Ops[in.FailFrom].Len = 5000 + r.Intn(15000)
 		}
 		out = append(out, in)
+	}
+	// the send Connect makes itself: hook set or not x connection healthy or reset after the bind
+	for v := 0; v < 4; v++ {
+		out = append(out, &c08In{Mode: "connect", Hook: v&1 != 0, Reset: v&2 != 0})
+	}
+	if tier == "thorough" {
+		for k := 1; k <= 3; k++ {
+			for v := 0; v < 4; v++ {
+				out = append(out, &c08In{Mode: "connect", Hook: v&1 != 0, Reset: v&2 != 0, Seed: int64(k)})
+			}
+		}
 	}
 	// concurrent senders, in memory: tiny stanzas, maximal contention on the send path
 	nmem := 24
